@@ -94,9 +94,11 @@ CLAIMS = {
     'C13': ('proof', 'Lean 4 theorems (acceptance of the documented grammar for domain hosts, self-match, documented constants and alphabets, shape of accepted patterns, grammar-independent rejections) + differential tie on grammar-directed strings with a grammar judge',
             "Theorems C13_accept (every pattern of the documented form with a domain host - Spec/Grammar.lean, the grammar given generatively by parts: scheme, optional `*.`, LDH labels, optional trailing dot, optional port or `:*` - is accepted by the model of ParsePattern "
             "for every behaviour of the library oracles and parses to exactly its parts), C13_self (an accepted pattern without `*.`/`:*`, presented verbatim as Origin within the length cap, is parsed by the request-side lexer into an origin the pattern denotes), "
+            "C13_accept_self (a documented wildcard-free pattern presented verbatim as an Origin parses and is denoted, also at all length maxima at once), C13_accepted_form / C13_reject_bad_host_byte (every accepted bracket-free pattern is literally scheme://host + nothing / `:*` / `:`canonical-decimal(1..65535), "
+            "host bytes from the documented alphabet: upper-case and non-ASCII hosts, userinfo, path, query, fragment, whitespace, empty/zero/over-range/over-long/leading-zero ports are rejected), "
             "C13_constants / C13_alphabets (the regenerated length maxima, ports, separators and byte tables are the documented ones; the request-side cap is the sum of the maxima), C13_accepted_shape, C13_reject_null/_star/_file/_no_sep/_bad_first_byte (Props/C13.lean). "
             "Tie: `lex` suite (ParsePattern verdict and Reason, Parse results on grammar-directed strings, patterns at every maximum at once, single-defect and boundary-splice mutations), judged by an independent grammar oracle.",
-            '6/C13', 'PARTIAL: acceptance of IP-literal and Punycode hosts and the remaining single-defect rejections are tie-only (their verdicts come from netip and idna, modelled as oracles); grey zones (`_`, hyphens in label positions 3-4, digit-leading last label) are excluded from the grammar.'),
+            '6/C13', 'PARTIAL: acceptance of IP-literal and Punycode hosts and the IP-literal defects (zoned, IPv4-mapped, non-canonical) are tie-only (their verdicts come from netip and idna, modelled as oracles); grey zones (`_`, hyphens in label positions 3-4, digit-leading last label) are excluded from the grammar.'),
     'C14': ('proof', 'Lean 4 equivalence proof model = specification (induction over fuel/lines/elements; strict total order on byte strings) + differential tie',
             "Theorems C14 / C14_sound / C14_browser / C14_wf (Props/C14.lean): for every SortedSet maintained by Add and every sequence of field lines over arbitrary bytes, "
             "the model of headers.Check (windowed comma cut of maxLen+3 bytes, bounded OWS trimming with its check-before-test order, global empty-element counter, IndexAfter on the "
